@@ -52,10 +52,53 @@ def fcs_helper(P, callee):
         tb = TermBuilder(f, P)
         rts = return_terms(f, tb)
         if len(rts) == 1:
-            sv = show(rts[0][2])
-            res = "fold(" in sv and "wrapping_add" in sv and any(x[0] == "arg" for x in subterms(rts[0][2]))
+            src = fcs_fold_source(rts[0][2], P)
+            res = src is not None and strip_refs(src)[0] == "arg"  # the sum of the whole slice parameter
     _FCS[callee] = res
     return res
+
+
+def fcs_fold_source(t, P=None):
+    """t is the wrapping byte sum of *every* element of a slice: `S.iter()[.copied()|.cloned()].fold(0, u8::wrapping_add)` (or the same
+    with a closure `|a, b| a.wrapping_add(b)`) -> the slice term S, else None.  Any other adapter in the chain (skip, take, filter,
+    step_by, ...), another start value or another operator is not the PROFIBUS frame check sequence."""
+    t = strip_refs(t)
+    if t[0] != "call" or not t[1].endswith("::fold") or len(t[2]) != 3:
+        return None
+    it, init, op = t[2]
+    if strip_casts(init) != ("const", 0):
+        return None
+    op = strip_refs(op)
+    ok_op = op[0] == "const" and isinstance(op[1], tuple) and op[1][0] == "fn" and op[1][1].endswith("<impl u8>::wrapping_add")
+    if not ok_op and op[0] == "agg" and str(op[1]).startswith("closure:") and P is not None:
+        cf = P.get(CR, op[1][len("closure:"):])
+        if cf is not None and cf.argc == 3 and not cf.back_edges():
+            from analysis.query import return_terms
+            rts = return_terms(cf, TermBuilder(cf, P))
+            if len(rts) == 1:
+                r = strip_refs(rts[0][2])
+                if r[0] == "call" and r[1].endswith("<impl u8>::wrapping_add") and len(r[2]) == 2:
+                    ls = []
+                    for a in r[2]:
+                        a = strip_casts(strip_refs(a))
+                        while a[0] == "deref":
+                            a = strip_refs(a[1])
+                        ls.append(a)
+                    ok_op = all(a[0] == "arg" for a in ls) and ls[0] != ls[1]
+    if not ok_op:
+        return None
+    cur = strip_refs(it)
+    for _ in range(4):
+        if cur[0] != "call" or len(cur[2]) != 1:
+            return None
+        short = cur[1].split("::")[-1]
+        if short in ("copied", "cloned"):
+            cur = strip_refs(cur[2][0])
+            continue
+        if short in ("iter", "into_iter"):
+            return strip_refs(cur[2][0])
+        return None
+    return None
 
 
 def is_fcs_term(t, P=None):
@@ -63,7 +106,7 @@ def is_fcs_term(t, P=None):
     t = strip_refs(t)
     if t[0] != "call":
         return False
-    return ("fold" in t[1] and "wrapping_add" in show(t)) or fcs_helper(P, t[1])
+    return fcs_fold_source(t, P) is not None or fcs_helper(P, t[1])
 
 
 def is_buf_elem(t, idx_pred=None):
